@@ -309,9 +309,23 @@ def record_run(res) -> dict:
 def check_runs(chk, cfgs):
     drv = core.LeanDriver()
     lines, keep = [], []
-    for cfg in cfgs:
+    SCHEDULE_KEYS = ("adaptive", "n_steps", "min_step", "max_n_steps", "target_efficiency", "target_efficiency_rate", "n_final_samples")
+    queue = [(dict(c), None) for c in cfgs]
+    done = 0
+    while queue:
+        cfg, reuse = queue.pop(0)
         mode = cfg.pop("mode", "adaptive")
-        res = smcrun.run_smc(cfg, watchdog_iters=250)
+        res = smcrun.run_smc(cfg, watchdog_iters=250, reuse=reuse)
+        done += 1
+        if reuse is None and res["status"] == "done" and done % 3 == 0 and queue and cfg.get("sampler", "minipcn_smc") == "minipcn_smc":
+            # the same sampler object serves a second run with OTHER schedule options (those of the next configuration)
+            nxt = queue[0][0]
+            cfg2 = {k: v for k, v in cfg.items() if k not in SCHEDULE_KEYS}
+            cfg2.update({k: nxt[k] for k in SCHEDULE_KEYS if k in nxt})
+            cfg2.update(seed=int(cfg["seed"]) + 7, mode="reused:" + str(nxt.get("mode", "adaptive")))
+            queue.insert(0, (cfg2, res))
+        if reuse is not None:
+            chk.count("run:second_run_on_the_same_sampler_object")
         full = res["cfg"]
         h = res["sampler"].history
         chk.count(f"run:{mode}")
